@@ -28,6 +28,7 @@ def check(ctx):
     ctx.rule("T1-conj", "need lists are conjunctions: first falsy need ends evaluation; parsers require 'and'")
     bm = ctx.repo.mod("building")
     ctx.use(bm)
+    _framing.act_clone_preserves_class(ctx, "T9-args")      # `not <comparison>` survives cloning: Nact stays Nact
     comps = literal_string_list(module_assign(bm, "Comparisons"))
     if comps is None:
         raise AnchorError("Comparisons is not a literal list")
